@@ -49,7 +49,7 @@ prop("C17", "TestC17", "exploration",
      "all 3375 codons also as the query codon of a gene run through `variants` (3 reference codons x 2 strands x GenBank/GFF, rows against the C04 oracle); codon sequences: every codon preceded/followed by 8 followers (enumerated) and rapid sequences of 2..8 codons mixing resolvable-ambiguous, plain and untranslatable ones; codons: all 15^3 enumerated, non-trivial = contains an ambiguity code; characters: all 32 accepted enumerated; strings: rapid, "
      "length 0..40 over the 32 accepted characters, non-trivial = length >= 2; distinct = hash of the case",
      q, t, required_labels=["codon:ambiguous-resolvable", "char", "string:len>=2"],
-     exhaustive_note="all 15^3 codons x {lenient, strict, dictionary}; all 32 accepted + 95 rejected ASCII characters")
+     exhaustive_note="all 15^3 codons x {lenient, strict, dictionary}; all 15^3 codons as query codon through variants x 3 reference codons x 2 strands x 2 annotation formats; all 32 accepted + 95 rejected ASCII characters")
 
 q, t = tiers(8, 8000, 16, 60000, floor_q=2000, floor_t=20000)
 prop("C03", "TestC03", "exploration",
@@ -227,7 +227,7 @@ prop("C15", "TestC15", "exploration",
      "aa records of codons that span a join have no position pinned by the statement and are allowed either way near the window edge.",
      "property-based testing (rapid): metamorphic/algebraic relations between runs, bounded-exhaustive windows for small references; process-level for cobra-layer flags and stdin",
      "C01/C02/C04 generators; non-trivial = a window strictly inside the reference (toma/topa), wrap shorter than the row, a window that keeps some but not all "
-     "mutations, legacy-flag and stdin runs; distinct = hash of the case",
+     "mutations, legacy-flag and stdin runs; one variants-window case in ten also passes its window (start alone / end alone / both) through the binary; distinct = hash of the case",
      q, t, need_bin=True, required_labels=["kind:toma-window", "kind:topa-window", "kind:wrap", "kind:variants-window", "kind:legacy-flags", "kind:stdin",
                                            "all-windows-enumerated", "start-alone", "end-alone", "both-bounds", "pad"])
 
@@ -290,7 +290,7 @@ prop("C18", "TestC18", "exploration",
      "terminate (5 s, re-confirmed with 25 s before a hang counts) with a non-zero exit status.",
      "Exit 1 (error) and exit 2 (Go panic) both satisfy the statement as written; the class is recorded as a label. Only conditions gofasta documents or checks are injected; files a command never opens are not corrupted.",
      "property-based testing (rapid) with structured corruption of valid inputs, process-level exit-status oracle",
-     "valid inputs from the C03/C06/C08/C04/C01 generators; an unequal row is off by one symbol, by many, by half, or reduced to a bare header, at the first, middle or last record; a second --reference record may be a bare header; non-trivial = corruption at a non-first record or in a secondary input file or in the options; distinct = hash of the case",
+     "valid inputs from the C03/C06/C08/C04/C01 generators; an unequal row is off by one symbol, by many, by half, or reduced to a bare header, at the first, middle or last record; a second --reference record may be a bare header; CSV inputs are corrupted as a whole or in one row (malformed SNP token / ambiguity range, missing or extra field, non-numeric ambcount); topranking runs with drawn size / dist / push modes and thresholds; non-trivial = corruption at a non-first record or in a secondary input file or in the options; distinct = hash of the case",
      q, t, need_bin=True,
      required_labels=["cmd:snps", "cmd:closest", "cmd:updown list", "cmd:updown topranking", "cmd:variants", "cmd:sam toMultiAlign", "cmd:sam toPairAlign", "cmd:sam variants",
                       "corruption:unequal-row", "corruption:non-iupac", "corruption:empty-file", "corruption:missing-file", "corruption:empty-sam",
